@@ -562,7 +562,7 @@ class Builtins:
 
     def bi_dict_same_except(self, it, a, k, n):
         """the two dicts / sets agree on every key other than the given ones (frame of a keyed update)"""
-        d1, d0 = it.refine(a[0].t), it.refine(a[1].t)
+        d1, d0 = it.refine(it.split_kind(a[0]).t), it.refine(it.split_kind(a[1]).t)
         kx = z3.String('k!dse')
         excl = []
         for x in a[2:]:
@@ -1192,9 +1192,14 @@ class Builtins:
                 res = SV(res.t, res.ty, slot)
         if isinstance(res, tuple):
             result, newobj = res
-            if write_back is None:
-                raise Unsupported(f'mutating method .{name} on temporary')
-            it.assign(write_back, newobj, wb=True)
+            if isinstance(write_back, ast.Call):
+                write_back = None       # the receiver is itself a call result: only the slot it aliases (if any) is updated
+            if write_back is None and obj.src is None:
+                if name in ('get', 'setdefault', 'pop', 'popitem'):
+                    raise Unsupported(f'mutating method .{name} on temporary')
+                return result           # mutation of a temporary container: no observable effect
+            if write_back is not None:
+                it.assign(write_back, newobj, wb=True)
             if obj.src is not None and obj.src is not write_back:
                 it.assign(obj.src, newobj, wb=True)
             return result
@@ -1306,6 +1311,18 @@ class Builtins:
         return SV(default, O._elem_type(obj.ty)), SV(simp(O.dict_store(t, key, default)), obj.ty, obj.src)
 
     def dm_update(self, it, obj, a, k):
+        o0 = it.split_kind(obj)
+        if O.ctor(it.refine(o0.t)) == 'SetV':
+            # set.update(other set): union
+            cur = it.refine(o0.t).arg(0)
+            rty = obj.ty
+            for x in a:
+                xs = it.split_kind(x)
+                if O.ctor(it.refine(xs.t)) != 'SetV':
+                    raise Unsupported('set.update with a non-set argument')
+                cur = z3.Map(z3.Or(z3.BoolVal(True), z3.BoolVal(False)).decl(), cur, it.refine(xs.t).arg(0))
+                rty = rty or x.ty       # an untyped (empty literal) set takes the element type of what is merged in
+            return SV(V.NoneV), SV(V.SetV(cur), rty, obj.src)
         self._need(it, obj, V.is_DictV, '.update()')
         if obj.ty == 'ImmutableDict':
             it.raise_('TypeError')
